@@ -64,7 +64,7 @@ def r06_2(ctx, counts: dict[str, int]) -> RuleResult:
         'R06.2', 'ROUND-SIGN',
         'F&O fn:round breaks ties towards positive infinity: half UP for positive numbers, '
         'half DOWN (towards zero) for negative ones. In the functions bound to fn:round and in '
-        'the half-up helper, every Decimal.quantize(…, rounding=\'ROUND_HALF_UP\') is on the '
+        'the half-up helper, every Decimal.quantize / to_integral_value(…, rounding=\'ROUND_HALF_UP\') is on the '
         'true branch of a `<number> > 0` test and every ROUND_HALF_DOWN on its false branch; a '
         'quantize without a rounding argument (pure rescale of an already rounded value) is '
         'ignored.')
@@ -77,7 +77,8 @@ def r06_2(ctx, counts: dict[str, int]) -> RuleResult:
         for nd in cfg.nodes:
             for x in nd.walk():
                 if not (isinstance(x, ast.Call) and isinstance(x.func, ast.Attribute)
-                        and x.func.attr == 'quantize'):
+                        and x.func.attr in ('quantize', 'to_integral_value', 'to_integral',
+                                            'to_integral_exact')):
                     continue
                 mode = None
                 for k in x.keywords:
